@@ -14,6 +14,7 @@ import (
 	"io"
 	"net/http"
 	"net/http/httptest"
+	"testing/iotest"
 
 	"github.com/ovh/kmip-go"
 	"github.com/ovh/kmip-go/kmipserver"
@@ -123,58 +124,64 @@ func c08HTTP(c *h.Ctx) {
 		for _, b := range bodies {
 			v := tv.ToValue(b.tree)
 			doc := e.marshal(&v)
-			cj := map[string]any{"leg": "http", "encoding": e.name, "body": b.name}
 			// the classification of the body is the library's own decoder's: the leg is about what the handler does with it
 			var probe kmip.RequestMessage
 			decodable := e.unmarshal(doc, &probe) == nil
 			if decodable != b.decodable {
 				continue
 			}
-			cnt := &c08CountingHandler{inner: exec}
-			rec := httptest.NewRecorder()
-			rq := httptest.NewRequest(http.MethodPost, "/kmip", bytes.NewReader(doc))
-			rq.Header.Set("Content-Type", e.ctype)
-			rq.Header.Set("Content-Length", fmt.Sprint(len(doc)))
-			panicked := ""
-			func() {
-				defer func() {
-					if p := recover(); p != nil {
-						panicked = fmt.Sprint(p)
-					}
+			for _, chunked := range []bool{false, true} {
+				cj := map[string]any{"leg": "http", "encoding": e.name, "body": b.name, "body_arrives_in_pieces": chunked}
+				cnt := &c08CountingHandler{inner: exec}
+				rec := httptest.NewRecorder()
+				var body io.Reader = bytes.NewReader(doc)
+				if chunked {
+					body = iotest.OneByteReader(bytes.NewReader(doc)) // a body that does not arrive in one read
+				}
+				rq := httptest.NewRequest(http.MethodPost, "/kmip", body)
+				rq.Header.Set("Content-Type", e.ctype)
+				rq.Header.Set("Content-Length", fmt.Sprint(len(doc)))
+				panicked := ""
+				func() {
+					defer func() {
+						if p := recover(); p != nil {
+							panicked = fmt.Sprint(p)
+						}
+					}()
+					kmipserver.NewHTTPHandler(cnt).ServeHTTP(rec, rq)
 				}()
-				kmipserver.NewHTTPHandler(cnt).ServeHTTP(rec, rq)
-			}()
-			c.Eval("http/"+e.name+"/"+b.name, true)
-			c.Count("leg:http/" + map[bool]string{true: "decodable", false: "undecodable"}[decodable])
-			if panicked != "" {
-				c.Fail("C08/http/handler-panics", "ServeHTTP panicked: "+panicked, cj)
-				continue
-			}
-			out := rec.Body.Bytes()
-			if n := c08OneDocument(e.name, out); n != 1 {
-				c.Fail("C08/http/not-exactly-one-response", fmt.Sprintf("the body of the answer to a %s request (%s) holds %d %s documents (%d bytes), expected exactly one response message", b.name, e.name, n, e.name, len(out)), cj)
-				continue
-			}
-			var resp kmip.ResponseMessage
-			if err := e.unmarshal(out, &resp); err != nil {
-				c.Fail("C08/http/response-not-decodable", "the answer is not a response message: "+err.Error(), cj)
-				continue
-			}
-			if decodable {
-				if cnt.calls != 1 || len(resp.BatchItem) != len(b.tree.Kids)-1 {
-					c.Fail("C08/http/well-formed-request-not-answered-once", fmt.Sprintf("request handler called %d times, response has %d items for %d request items", cnt.calls, len(resp.BatchItem), len(b.tree.Kids)-1), cj)
+				c.Eval(fmt.Sprintf("http/%s/%s/%v", e.name, b.name, chunked), true)
+				c.Count("leg:http/" + map[bool]string{true: "decodable", false: "undecodable"}[decodable])
+				if panicked != "" {
+					c.Fail("C08/http/handler-panics", "ServeHTTP panicked: "+panicked, cj)
+					continue
 				}
-				continue
-			}
-			if cnt.calls != 0 {
-				c.Fail("C08/http/undecodable-request-reaches-handler", fmt.Sprintf("the request handler was called %d times for a request that could not be decoded", cnt.calls), cj)
-			}
-			if len(resp.BatchItem) != 1 || resp.BatchItem[0].ResultStatus != kmip.ResultStatusOperationFailed || resp.BatchItem[0].ResultReason != kmip.ResultReasonInvalidMessage {
-				got := "no item"
-				if len(resp.BatchItem) > 0 {
-					got = fmt.Sprintf("%d item(s), first: status %d reason %d %q", len(resp.BatchItem), resp.BatchItem[0].ResultStatus, resp.BatchItem[0].ResultReason, resp.BatchItem[0].ResultMessage)
+				out := rec.Body.Bytes()
+				if n := c08OneDocument(e.name, out); n != 1 {
+					c.Fail("C08/http/not-exactly-one-response", fmt.Sprintf("the body of the answer to a %s request (%s) holds %d %s documents (%d bytes), expected exactly one response message", b.name, e.name, n, e.name, len(out)), cj)
+					continue
 				}
-				c.Fail("C08/http/undecodable-not-answered-invalid-message", "a correctly framed but undecodable request over HTTP is answered with "+got+", expected a single failed item with reason Invalid Message", cj)
+				var resp kmip.ResponseMessage
+				if err := e.unmarshal(out, &resp); err != nil {
+					c.Fail("C08/http/response-not-decodable", "the answer is not a response message: "+err.Error(), cj)
+					continue
+				}
+				if decodable {
+					if cnt.calls != 1 || len(resp.BatchItem) != len(b.tree.Kids)-1 {
+						c.Fail("C08/http/well-formed-request-not-answered-once", fmt.Sprintf("request handler called %d times, response has %d items for %d request items", cnt.calls, len(resp.BatchItem), len(b.tree.Kids)-1), cj)
+					}
+					continue
+				}
+				if cnt.calls != 0 {
+					c.Fail("C08/http/undecodable-request-reaches-handler", fmt.Sprintf("the request handler was called %d times for a request that could not be decoded", cnt.calls), cj)
+				}
+				if len(resp.BatchItem) != 1 || resp.BatchItem[0].ResultStatus != kmip.ResultStatusOperationFailed || resp.BatchItem[0].ResultReason != kmip.ResultReasonInvalidMessage {
+					got := "no item"
+					if len(resp.BatchItem) > 0 {
+						got = fmt.Sprintf("%d item(s), first: status %d reason %d %q", len(resp.BatchItem), resp.BatchItem[0].ResultStatus, resp.BatchItem[0].ResultReason, resp.BatchItem[0].ResultMessage)
+					}
+					c.Fail("C08/http/undecodable-not-answered-invalid-message", "a correctly framed but undecodable request over HTTP is answered with "+got+", expected a single failed item with reason Invalid Message", cj)
+				}
 			}
 		}
 	}
